@@ -80,10 +80,26 @@ func (ts *Timers) withMap(x interface{}) error {
 }
 
 // State creates a machine state that Timers.withMap can use.
+//
+// The state holds a copy of the Map (entries are immutable), so it can
+// be handed to other goroutines.  The caller should hold the Timers'
+// lock.
 func (ts *Timers) State() *core.State {
-	return &core.State{
-		Bs: match.NewBindings().Extend("timers", ts.Map),
+	pending := make(map[string]*TimerEntry, len(ts.Map))
+	for id, te := range ts.Map {
+		pending[id] = te
 	}
+	return &core.State{
+		Bs: match.NewBindings().Extend("timers", pending),
+	}
+}
+
+// Pending returns a copy of the Map.
+func (ts *Timers) Pending() map[string]*TimerEntry {
+	ts.Lock()
+	pending := ts.State().Bs["timers"].(map[string]*TimerEntry)
+	ts.Unlock()
+	return pending
 }
 
 // Start starts all known timers.
@@ -92,9 +108,11 @@ func (ts *Timers) State() *core.State {
 // data.
 func (ts *Timers) Start(ctx context.Context) error {
 	ts.c.Logf("Timers.Start")
+	ts.Lock()
 	for _, t := range ts.Map {
 		go t.run(ctx)
 	}
+	ts.Unlock()
 	return nil
 }
 
@@ -143,13 +161,25 @@ func (te *TimerEntry) run(ctx context.Context) error {
 	select {
 	case <-t.C:
 		te.timers.c.Logf("Firing timer '%s'", te.Id)
-		te.timers.Emitter(ctx, te)
-		te.timers.Lock()
-		delete(te.timers.Map, te.Id)
-		te.timers.Unlock()
-		te.timers.c.Lock()
-		te.timers.changed()
-		te.timers.c.Unlock()
+		// Do the bookkeeping before emitting, so that the id is
+		// free for reuse from the moment the timer fires (also for
+		// the handler of the emitted message) and a cancel that got
+		// here first has really cancelled this timer.  The crew's
+		// lock serialises the update of the crew's change cache
+		// with the crew's message processing.
+		ts := te.timers
+		ts.c.Lock()
+		ts.Lock()
+		mine := ts.Map[te.Id] == te
+		if mine {
+			delete(ts.Map, te.Id)
+			ts.changed()
+		}
+		ts.Unlock()
+		ts.c.Unlock()
+		if mine {
+			ts.Emitter(ctx, te)
+		}
 	case <-te.Ctl:
 		te.timers.c.Logf("Canceling timer '%s'", te.Id)
 	case <-ctx.Done():
@@ -157,6 +187,10 @@ func (te *TimerEntry) run(ctx context.Context) error {
 	return nil
 }
 
+// changed publishes the current timers as the timers machine's state.
+//
+// The caller should hold the Timers' lock (and, outside of the crew's
+// message processing, the crew's lock).
 func (ts *Timers) changed() {
 	ts.c.change(TimersMachine).State = ts.State()
 }
